@@ -162,9 +162,16 @@ pub fn check_case(c: &Case, rep: &mut Report) {
                     break;
                 }
                 Some(e) => {
-                    if &got == e {
+                    // an error the stream reported (anything but an interrupted call, which is to be repeated) or a write
+                    // that made no progress must come back as an error, even if a second attempt then delivered everything
+                    let must_report = fired > 0 && fault_here && (matches!(c.fault, Fault::Zero { .. }) || matches!(c.fault, Fault::Error { kind, .. } if kind != ErrorKind::Interrupted));
+                    if must_report && &got == e {
+                        rep.hist("error-swallowed");
+                        viol.push((format!("C14/{}/transport-error-swallowed", level), format!("{}: the stream reported {} but write returned Ok (the frame was then delivered whole by a second attempt)", what, fault_json(&c.fault))));
+                        break;
+                    } else if &got == e {
                         rep.hist("ok-exact");
-                    } else if fired > 0 && matches!(c.fault, Fault::Error { transient: false, .. } | Fault::Zero { .. }) {
+                    } else if must_report {
                         rep.hist("error-swallowed");
                         viol.push((format!("C14/{}/transport-error-swallowed", level), format!("{}: the stream reported {} but write returned Ok with {} of {} bytes delivered", what, fault_json(&c.fault), got.len(), e.len())));
                         break;
@@ -294,7 +301,7 @@ pub fn make_case(class: u64, idx: u64, seed: u64, quick: bool) -> Case {
             };
             let at = ((k / 64) as usize) % (frame_len + 1);
             let kind = KINDS[r.below(KINDS.len() as u64) as usize];
-            let fault = if r.chance(1, 5) { Fault::Zero { at } } else { Fault::Error { at, kind, transient: kind == ErrorKind::Interrupted } };
+            let fault = if r.chance(1, 5) { Fault::Zero { at } } else { Fault::Error { at, kind, transient: kind == ErrorKind::Interrupted || r.chance(1, 3) } };
             Case { level, lens: vec![len], caps: caps_for(&mut r, idx / 11), fault, fault_msg: 0, class: "fault-at-every-position", seed }
         }
         2 => {
@@ -303,7 +310,7 @@ pub fn make_case(class: u64, idx: u64, seed: u64, quick: bool) -> Case {
             let len = r.range(513, 66000) as usize;
             let at = r.below(len as u64 + 8) as usize;
             let kind = KINDS[r.below(KINDS.len() as u64) as usize];
-            let fault = if r.chance(1, 5) { Fault::Zero { at } } else { Fault::Error { at, kind, transient: kind == ErrorKind::Interrupted } };
+            let fault = if r.chance(1, 5) { Fault::Zero { at } } else { Fault::Error { at, kind, transient: kind == ErrorKind::Interrupted || r.chance(1, 3) } };
             let mut caps = caps_for(&mut r, idx / 5);
             if caps.iter().all(|c| *c < 8) {
                 caps.push(3000);
@@ -364,7 +371,7 @@ pub fn make_case(class: u64, idx: u64, seed: u64, quick: bool) -> Case {
             let fault = if r.chance(1, 3) {
                 let at = if r.chance(1, 2) { 0 } else { r.below(lens[fault_msg] as u64 + 8) as usize };
                 let kind = KINDS[r.below(KINDS.len() as u64) as usize];
-                Fault::Error { at, kind, transient: kind == ErrorKind::Interrupted }
+                Fault::Error { at, kind, transient: kind == ErrorKind::Interrupted || r.chance(1, 3) }
             } else {
                 Fault::None
             };
